@@ -91,6 +91,8 @@ fn exec_scenario(lens: [usize; 3], nargs: usize, unicode_first: bool) {
     let c = sp.command();
     kani::cover!(nargs == 3 && lens[0] == 0, "three args, first empty");
     kani::cover!(nargs >= 1 && lens[0] == 2 && b[0][0] == b' ' && b[0][1] == b'*', "argument ' *'");
+    kani::cover!(nargs >= 1 && lens[0] == 1 && b[0][0] == pb[0], "first argument equals the program");
+    kani::cover!(nargs == 2 && lens[1] == 2 && b[1][1] == b'\n', "last argument ends in a newline");
     assert!(is(&c.verif_program, &pb, 1), "C18: program altered");
     assert!(c.verif_args.len() == nargs, "C18: argument count changed (split or dropped)");
     let mut i = 0;
@@ -107,13 +109,15 @@ fn exec_scenario(lens: [usize; 3], nargs: usize, unicode_first: bool) {
     std::mem::forget(cmd);
 }
 
-/// Program::Exec with 0..=3 arguments; lengths (0,1,2) resp. (2,0,1); bytes symbolic.
+/// Program::Exec with 0..=3 arguments; three length patterns - (0,1,2), (1,2,0), (2,0,1) - so
+/// that every position sees every length (in particular a first argument as long as the
+/// program name, which is 1 byte, so the two can be equal); bytes symbolic.
 #[kani::proof]
 #[kani::unwind(5)]
 pub fn c18_exec_argv_exact() {
     split!(4, |nargs| {
-        split!(2, |pat| {
-            exec_scenario(if pat == 0 { [0, 1, 2] } else { [2, 0, 1] }, nargs, false);
+        split!(3, |pat| {
+            exec_scenario(if pat == 0 { [0, 1, 2] } else if pat == 1 { [1, 2, 0] } else { [2, 0, 1] }, nargs, false);
         })
     });
 }
